@@ -32,7 +32,7 @@ import (
 type Flow struct {
 	ID     string `json:"id"`               // id attribute of the flow root; "" is the main flow
 	Parent string `json:"parent,omitempty"` // id of the parent flow
-	Kind   string `json:"kind"`             // main | float | abs | cell | caption | hdr | fixed
+	Kind   string `json:"kind"`             // main | float | abs | cell | caption | hdr | fixed | running
 	Table  string `json:"table,omitempty"`  // hdr: id of the table the group belongs to
 	Text   string `json:"text"`             // expected characters in order, white space removed
 	Prev   string `json:"prev,omitempty"`   // last token of the parent flow before the flow root
@@ -151,12 +151,13 @@ func Check(raw json.RawMessage) fw.Result {
 		sb     strings.Builder
 		pageOf []int // page of every character of sb
 		byPage map[int]*strings.Builder
+		margin map[int]*strings.Builder // text found inside page-margin boxes, per page
 	}
 	obs := map[string]*fobs{}
 	get := func(id string) *fobs {
 		o := obs[id]
 		if o == nil {
-			o = &fobs{byPage: map[int]*strings.Builder{}}
+			o = &fobs{byPage: map[int]*strings.Builder{}, margin: map[int]*strings.Builder{}}
 			obs[id] = o
 		}
 		return o
@@ -168,6 +169,16 @@ func Check(raw json.RawMessage) fw.Result {
 			continue
 		}
 		s := stripWS(t.text)
+		if fl := flowByID[t.flow]; t.margin && t.pseudo == "" && fl != nil && fl.Kind == "running" {
+			o := get(t.flow)
+			mb := o.margin[t.page]
+			if mb == nil {
+				mb = &strings.Builder{}
+				o.margin[t.page] = mb
+			}
+			mb.WriteString(s)
+			continue
+		}
 		if t.margin || t.pseudo != "" {
 			if s != "" {
 				res.Fail("unexpected-text", fmt.Sprintf("page %d: text %q laid out in a %s box although the document has no such content", t.page+1, t.text, map[bool]string{true: "page-margin", false: "::" + t.pseudo}[t.margin]))
@@ -251,6 +262,11 @@ func Check(raw json.RawMessage) fw.Result {
 			}
 			res.Count("fixed_occurrences", int64(od.pages))
 			continue
+		case "running":
+			if got != "" {
+				res.Fail("running-in-flow", fmt.Sprintf("running element %s is laid out in the flow (%q); position:running() takes it out of the flow", f.ID, got))
+			}
+			continue
 		}
 		if f.ID != "" {
 			subflows++
@@ -286,6 +302,45 @@ func Check(raw json.RawMessage) fw.Result {
 	if res.Verdict == fw.OK {
 		for i := range in.Flows {
 			f := &in.Flows[i]
+			if f.Kind == "running" && f.Text != "" {
+				// CSS GCPM: the element is shown in the margin box of its anchor page and of every
+				// later page; the anchor page lies between the end of the preceding token and the
+				// start of the following token of the parent flow
+				par := flowByID[f.Parent]
+				po := obs[f.Parent]
+				o := get(f.ID)
+				if par == nil || po == nil {
+					continue
+				}
+				pA, pB := 0, od.pages-1
+				if f.Prev != "" {
+					if k := strings.Index(par.Text, f.Prev); k >= 0 {
+						pA = po.pageOf[k+len(f.Prev)-1]
+					}
+				}
+				if f.Next != "" {
+					if k := strings.Index(par.Text, f.Next); k >= 0 {
+						pB = po.pageOf[k]
+					}
+				}
+				for p := 0; p < od.pages; p++ {
+					s := ""
+					if mb := o.margin[p]; mb != nil {
+						s = mb.String()
+					}
+					switch {
+					case s == "" && p >= pB:
+						res.Fail("running-missing", fmt.Sprintf("running element %s (%q) is not in the margin box of page %d although its anchor is on page %d at the latest (%d pages)", f.ID, f.Text, p+1, pB+1, od.pages))
+					case s != "" && p < pA:
+						res.Fail("running-early", fmt.Sprintf("running element %s shown on page %d (%q), before its anchor (page %d at the earliest)", f.ID, p+1, s, pA+1))
+					case s != "" && s != f.Text:
+						res.Fail("running-"+classify(f.Text, s), fmt.Sprintf("running element %s on page %d: expected %q exactly once, laid out %q (%s)", f.ID, p+1, f.Text, s, describeDiff(f.Text, s)))
+					case s != "":
+						res.Count("running_occurrences", 1)
+					}
+				}
+				continue
+			}
 			if f.ID == "" || f.Kind == "hdr" || f.Kind == "fixed" || f.Text == "" {
 				continue
 			}
